@@ -136,7 +136,7 @@ def fault_directed():
                 # re-registration of a waiting id during an outage: the old record stays routable, then end
                 [{"op": "reg", "n": 0, "rec": r}, {"op": "reg", "n": 1, "rec": dict(r, node=hexs("node-1"), host=hexs("other")), "fault": True}] + allnodes
                 + [{"op": "rem", "n": 1, "tid": t}] + allnodes,
-                # outage during RemoveWaitingTunnel (known finding: the failed Delete is swallowed), then a working removal
+                # outage during RemoveWaitingTunnel itself (not judged: the record may stay until ExpiresAt; model replay only), then a working removal
                 [{"op": "reg", "n": 0, "rec": r}, {"op": "rem", "n": 0, "tid": t, "fault": True}] + allnodes + [{"op": "rem", "n": 1, "tid": t}] + allnodes,
                 # node address: outage during register / read / refresh
                 [{"op": "regaddr", "n": 0, "id": nid, "addr": a, "fault": True}, {"op": "getaddr", "n": 1, "id": nid},
